@@ -334,7 +334,7 @@ pub fn run(a: &Args) -> Report {
             churn: rng.usize(3),
             api_lookups: rng.bool(),
         };
-        scenario(&mut r, &p);
+        super::guarded(&mut r, case_json(&p), |r| scenario(r, &p));
         r.count("timelines");
     }
     r
